@@ -434,6 +434,10 @@ def gen_dce_spec(rng) -> dict:
         avail += ns["outs"]
     for _ in range(rng.randrange(1, 3)):
         g["outputs"].append(rng.choice(produced + g["inputs"][:1] + [i["h"] for i in g["inits"]][:1]))
+    if rng.random() < 0.45:                    # nothing dead: every value that nobody reads is an output
+        read = {h for n in g["nodes"] for h in n["ins"] if h}
+        g["outputs"] += [h for h in produced if h not in read and h not in g["outputs"]]
+        g["inits"] = [i for i in g["inits"] if i["h"] in read or i["h"] in g["inputs"] or i["h"] in g["outputs"]]
     for _ in range(rng.randrange(0, 3)):       # disorder
         if len(g["nodes"]) >= 2:
             i, j = rng.sample(range(len(g["nodes"])), 2)
@@ -556,7 +560,7 @@ T_API = ("list positive * list positive * list (positive * value) * bool * "
          "(bool * list positive * list positive * list (option Z * option Z * option Z))")
 T_CLEAR = "list cgraph * (list cgraph * bool)"
 T_DCE = "dgraph * (dgraph * bool)"
-T_TOPO = "list positive * list (list positive) * list positive * list (list positive) * bool"
+T_TOPO = "topo_case"
 T_IO = "bool * list (list positive * list positive) * (list (list positive * list positive) * bool)"
 
 
@@ -570,7 +574,7 @@ def correspondence(ck, scale: int) -> dict:
     direct_failures = []
     # ---- infra
     cases, terms = [], []
-    for i in range(250 * scale):
+    for i in range(500 * scale):
         t = gen_pterm(rng, rng.choice([0, 1, 2, 2, 3]))
         c0 = rng.choice([0, 1, 2, 3, 5, 9])
         obs = run_infra_case(t, c0)
@@ -589,9 +593,15 @@ def correspondence(ck, scale: int) -> dict:
         if i < 2:
             ck.sample({"family": "infra", "term": t, "c0": c0, "observed": obs})
     fam["infra"] = (cases, terms, T_INFRA, "infra_agree")
+    fixed = {k["key"] for k in ck._known if k.get("status") == "fixed"}
+    api_fixed = {"api-initializer-order", "api-shape-dtype-filled", "api-serialize-outside-try"} <= fixed
+    ck.coverage["model_variants"] = {
+        "call_onnx_api": "fixed" if api_fixed else "as-written", "clear": "fixed" if "clear-docstring-uncounted" in fixed else "as-written",
+        "dce": "fixed" if "dce-trim-uncounted" in fixed else "as-written",
+        "toposort": "fixed" if "toposort-subgraph-uncounted" in fixed else "as-written"}
     # ---- call_onnx_api
     cases, terms = [], []
-    for i in range(200 * scale):
+    for i in range(400 * scale):
         case = gen_api_case(rng)
         obs = run_api_case(case)
         obs["func_raises"] = case["func_raises"]
@@ -612,10 +622,10 @@ def correspondence(ck, scale: int) -> dict:
             ck.nontriv(("api", case))
         if i < 1:
             ck.sample({"family": "api", "case": case, "observed": obs})
-    fam["api"] = (cases, terms, T_API, "api_agree")
+    fam["api"] = (cases, terms, T_API, "api_agree_fixed" if api_fixed else "api_agree")
     # ---- clear / topo / io on the rich model family
     c_cl, t_cl, c_tp, t_tp, c_io_, t_io = [], [], [], [], [], []
-    for i in range(150 * scale):
+    for i in range(300 * scale):
         spec = I.gen_spec(rng)
         b = I.build(spec)
         before = abs_clear(b.model)
@@ -630,8 +640,14 @@ def correspondence(ck, scale: int) -> dict:
         b = I.build(spec)
         reg = I.Reg()
         m = b.model
+        def sublists():
+            out = [[reg(n) + 1 for n in g] for g in list(m.graphs())[1:]]
+            for f in m.functions.values():
+                out += [[reg(n) + 1 for n in sg] for sg in f.subgraphs()]
+            return out
         main = [reg(n) + 1 for n in m.graph]
         funcs = [[reg(n) + 1 for n in f] for f in m.functions.values()]
+        subs = sublists()
         try:
             res = cp.TopologicalSortPass()(m)
         except Exception:  # noqa: BLE001  (cycle)
@@ -639,12 +655,14 @@ def correspondence(ck, scale: int) -> dict:
         else:
             smain = [reg(n) + 1 for n in m.graph]
             sfuncs = [[reg(n) + 1 for n in f] for f in m.functions.values()]
+            ssubs = sublists()
             ck.count()
             ck.hist("topo_outcomes", f"modified={res.modified}")
             c_tp.append(spec)
             zl = lambda l: clist(cpos(x) for x in l)  # noqa: E731
-            t_tp.append(f"({zl(main)}, {clist(zl(f) for f in funcs)}, {zl(smain)}, {clist(zl(f) for f in sfuncs)}, {cbool(res.modified)})")
-            if main != smain or funcs != sfuncs:
+            zll = lambda ll: clist(zl(f) for f in ll)  # noqa: E731
+            t_tp.append(f"({zl(main)}, {zll(funcs)}, {zll(subs)}, ({zl(smain)}, {zll(sfuncs)}, {zll(ssubs)}), {cbool(res.modified)})")
+            if main != smain or funcs != sfuncs or subs != ssubs:
                 ck.nontriv(("topo", main, smain))
         # io
         for is_add, P in ((True, cp.AddInitializersToInputsPass), (False, cp.RemoveInitializersFromInputsPass)):
@@ -658,12 +676,12 @@ def correspondence(ck, scale: int) -> dict:
             t_io.append(f"({cbool(is_add)}, {c_io(before)}, ({c_io(after)}, {cbool(res.modified)}))")
             if before != after:
                 ck.nontriv(("io", is_add, before))
-    fam["clear"] = (c_cl, t_cl, T_CLEAR, "clear_agree")
-    fam["topo"] = (c_tp, t_tp, T_TOPO, "topo_agree")
+    fam["clear"] = (c_cl, t_cl, T_CLEAR, "clear_agree_fixed" if "clear-docstring-uncounted" in fixed else "clear_agree")
+    fam["topo"] = (c_tp, t_tp, T_TOPO, "topo_agree_fixed" if "toposort-subgraph-uncounted" in fixed else "topo_agree")
     fam["io"] = (c_io_, t_io, T_IO, "io_agree")
     # ---- dce on flat graphs
     cases, terms = [], []
-    for i in range(250 * scale):
+    for i in range(500 * scale):
         spec = gen_dce_spec(rng)
         b = I.build(spec)
         reg = I.Reg()
@@ -678,7 +696,7 @@ def correspondence(ck, scale: int) -> dict:
             ck.nontriv(("dce", before))
         if i < 1:
             ck.sample({"family": "dce", "spec": spec, "before": before, "after": after, "modified": res.modified})
-    fam["dce"] = (cases, terms, T_DCE, "dce_agree")
+    fam["dce"] = (cases, terms, T_DCE, "dce_agree_fixed" if "dce-trim-uncounted" in fixed else "dce_agree")
     fam["direct_failures"] = direct_failures
     return fam
 
@@ -840,7 +858,7 @@ def run(ck) -> None:
                 records.append({"spec": c["spec"], "pass": c["pass"], "fault": c.get("fault"), "failure": f})
         except Exception as e:  # noqa: BLE001
             ck.broken("corpus-case-error", f"{type(e).__name__}: {e}")
-    records += oracle_sweep(ck, 60 * scale, 150 * scale, [c["spec"] for c in corpus])
+    records += oracle_sweep(ck, 150 * scale, 400 * scale, [c["spec"] for c in corpus])
     # direct oracle failures of the correspondence families
     whats = {k["key"]: k["what"] for k in ck._known if k.get("status") == "known"}
     for d in direct:
